@@ -542,7 +542,7 @@ def gen_env(rng, fault=True):
     env = {
         "x": [rng.randrange(1, 4) for _ in range(3)],
         "n": [rng.choice(trip) for _ in range(3)],
-        "l": rng.choice([0, 1, 2, 3]),
+        "l": rng.choice([0, 1, 2, 3, -1, -2, -3]),  # also iteration spaces that start below zero
         "t": rng.choice([1, 2, 3]),
         "b": [rng.randrange(2) for _ in range(3)],
         "seed": rng.randrange(1 << 30),
